@@ -133,7 +133,7 @@ PROPS = {
         "harness": "c06",
         "sig_include": "^c05-|^create|^pristine",
         "profiles": ["debug"],
-        "rule": "one case = one base container (quick: one-file/none exhaustive, two-files/zstd, no-concat/lz4; thorough: 3 packagings x {none,zstd,lz4,lzma}) damaged, one file at a time, by: every byte position x masks {01,80,FF} (exhaustive on the small base, 150/600 sampled positions x {01,FF} otherwise), 25/120 zeroed or randomly overwritten ranges of 1..300 bytes, truncation at every length (exhaustive small, sampled + boundaries otherwise), appended garbage, and non-Jubako files of 0/1/59/60/63/64/100/4096 bytes; each damaged container is read by the full reader script (open, every entry and value, every content streamed, check) in a supervised worker; a returned value must have exactly the undamaged structure, and differing content bytes must make check() not true; a sample of the damaged directories is also read by the Lean reader (ct.read) and compared; non-trivial = at least one damaged variant read",
+        "rule": "one case = one base container (quick: one-file/none exhaustive, two-files/zstd, no-concat/lz4; thorough: 3 packagings x {none,zstd,lz4,lzma}; plus 1 (quick) / 3 (thorough) 'big tables' bases with 2300..2700 tiny contents so that the content pack's checked blocks exceed the reader's 4 KiB heap/mmap threshold) damaged, one file at a time, by: every byte position x masks {01,80,FF} (exhaustive on the small base, 150/600 sampled positions x {01,FF} otherwise), 25/120 zeroed or randomly overwritten ranges of 1..300 bytes, truncation at every length (exhaustive small, sampled + boundaries otherwise), appended garbage, and non-Jubako files of 0/1/59/60/63/64/100/4096 bytes; each damaged container is read by the full reader script (open, every entry and value, every content streamed, check) in a supervised worker; a returned value must have exactly the undamaged structure, and differing content bytes must make check() not true; a sample of the damaged directories is also read by the Lean reader (ct.read) and compared; non-trivial = at least one damaged variant read",
         "assumptions": [
             "a 32-bit CRC admits collisions: the unconditional theorem covers alterations confined to 4 consecutive bytes of a block; wider damage carries an explicit collision disjunct",
             "cluster payloads carry no CRC by design: only the integrity check (blake3) covers them",
